@@ -732,6 +732,33 @@ theorem partial_override (params : List String) (d σ ρ kw : Dict) (hn : params
 example : (run Heap.empty [.wrapFun 0 ["x", "y", "scale"] [2], .partialEval 0 [("x", 3), ("scale", 4)],
     .call 1 [("y", 5)]]).2.getLast? = some (.value 0 [("y", 5), ("x", 3), ("scale", 4)]) := by decide
 
+/-- **values are not inspected**: a `set_default` that skips `None` (identifier −1) breaks "wrapper + remaining
+    names = one full evaluation": `f(a, b, c=7)`, `partially_evaluate(a=None, c=None)`, then `b`: the wrapper
+    still asks for `a` (rejected) where one full evaluation binds `a = None, c = None` … -/
+theorem skipNone_breaks_partial :
+    call ["a", "b", "c"] (setDefaultsSkip (-1) ["a", "b", "c"] [("c", 7)] [("a", -1), ("c", -1)]) [("b", 1)]
+      = .error .missingArg ∧
+    call ["a", "b", "c"] (setDefaults ["a", "b", "c"] [("c", 7)] [("a", -1), ("c", -1)]) [("b", 1)]
+      = .ok [("b", 1), ("a", -1), ("c", -1)] ∧
+    call ["a", "b", "c"] [("c", 7)] ([("b", 1)] ++ [("a", -1), ("c", -1)]) = .ok [("a", -1), ("b", 1), ("c", -1)] := by
+  decide
+
+/-- … and an optional name bound to `None` keeps its old default. -/
+theorem skipNone_keeps_old_default :
+    call ["a", "c"] (setDefaultsSkip (-1) ["a", "c"] [("c", 7)] [("c", -1)]) [("a", 1)] = .ok [("a", 1), ("c", 7)] ∧
+    call ["a", "c"] (setDefaults ["a", "c"] [("c", 7)] [("c", -1)]) [("a", 1)] = .ok [("a", 1), ("c", -1)] := by
+  decide
+
+/-- **the truth value of the argument container must not be consulted**: a Points object with the columns
+    `x, t` and ZERO rows is falsy in Python; `args = args or {}` turns it into "no names given": the required
+    `x` is reported missing although it is there, and with `x` optional the stored (empty) column is silently
+    replaced by the default. -/
+theorem truthy_container_breaks :
+    callTruthy ["x", "t"] [] ⟨[("t", 1), ("x", 2)], 0⟩ = .error .missingArg ∧
+    call ["x", "t"] [] [("t", 1), ("x", 2)] = .ok [("x", 2), ("t", 1)] ∧
+    callTruthy ["x"] [("x", 9)] ⟨[("x", 2)], 0⟩ = .ok [("x", 9)] ∧
+    call ["x"] [("x", 9)] [("x", 2)] = .ok [("x", 2)] := by decide
+
 /-- the step-level form: when σ does not bind every required name, `partially_evaluate` returns a NEW
     wrapper (same function, same parameters) whose defaults live in a NEW dict `set_default(σ)` of a copy;
     every existing dict and wrapper stays as it was. -/
